@@ -90,37 +90,60 @@ def parallel_ops(ctx, exe, dbpath, ops, chunk=24):
 
 # ---------------------------------------------------------------------------------------------- (i) convert_units
 
-def model_conv_text(db, desc, density, iter_, kgw, comps_gfw=None):
+def model_text(wdb, desc, pass2=None):
+    """the case for `pmodel units`, as TEXT: the units token, the raw concentration lines (or SPREAD cells) of the input, the
+    element and master-species weights read from the database file by tools/dbparse.py. Names, numbers, units, `as` formulas and
+    -gfw are read by the Lean model (Txt.readCompLine, Txt.checkUnits, Formula.parseFormula), not here."""
     ph = desc["ph"]
-    gh = db.elt["H"]
-    goh = db.elt["H"] + db.elt["O"]
+    gh = wdb["elt"]["H"]
+    goh = wdb["elt"]["H"] + wdb["elt"]["O"]
     sum0 = math.exp(-ph * LOG10) * gh
     sum0 += math.exp((-14 + ph) * LOG10) * goh
-    L = [f"conv {hx(desc['default'])} {hd(density)} {hd(desc['water'])} {hd(sum0)} {iter_} {hd(kgw)}"]
-    for e, g in sorted(db.elt.items()):
-        L.append(f"elt {hx(e)} {hd(g)}")
-    for c in desc["comps"]:
-        elts = ",".join(f"{hx(e)}:{hd(k)}" for e, k in c["elts"]) or "-"
-        gfw = c["gfw"] if comps_gfw is None else comps_gfw[c["name"]]
-        L.append(f"comp {hx(c['name'])} {hd(c['conc'])} {hx(c['own']) if c['own'] else '-'} {1 if c['alk'] else 0} "
-                 f"{hd(gfw)} {hx(c['as_f'])} {elts} {hd(c['master'])} 0")
-    L.append("go")
+    L = [f"text {hx(desc['dspell'])} {hd(desc['density'])} {hd(desc['water'])} {hd(sum0)}"]
+    if pass2:
+        L.append(f"pass2 {hd(pass2['density'])} {pass2['iter']} {hd(pass2['kgw'])}")
+    L += wdb["lines"]
+    if desc.get("cells"):
+        for h, d, u in desc["cells"]:
+            L.append(f"cell {hx(h)} {hx(d)} {hx(u)}")
+    else:
+        for ln in desc["lines"]:
+            L.append(f"tline {hx(ln)}")
+    L.append("gotext")
     return "\n".join(L) + "\n"
 
 
-def parse_model_conv(lines):
-    tot, gfw, head = {}, {}, None
+def weights_db(path):
+    """element weights and master-species weight entries from the database text (tools/dbparse.py, independent of the engine)"""
+    import dbparse
+    d = dbparse.parse(path)
+    elt, lines = {}, []
+    for m in d.masters:
+        if m.primary and m.elt_gfw is not None:
+            elt[m.element] = m.elt_gfw
+    for e, g in sorted(elt.items()):
+        lines.append(f"telt {hx(e)} {hd(g)}")
+    for m in d.masters:
+        v = m.gfw_formula if m.gfw_formula is not None else repr(m.gfw)
+        lines.append(f"master {hx(m.element.replace('(+', '('))} {hx(v)}")
+    return dict(elt=elt, lines=lines, problems=d.problems)
+
+
+def parse_model_text(lines):
+    out = dict(head=None, C={}, T={}, U={}, bad=None)
     for ln in lines:
         w = ln.split()
         if w[0] == "R":
-            head = (int(w[1]), ud(w[2]))
+            out["head"] = (int(w[1]), ud(w[2]), unhex(w[3]))
+        elif w[0] == "C":
+            out["C"][unhex(w[1])] = dict(conc=ud(w[2]), units=unhex(w[3]), as_f=unhex(w[4]), gfw=ud(w[5]))
         elif w[0] == "T":
-            tot[unhex(w[1])] = ud(w[2])
-        elif w[0] == "G":
-            gfw[unhex(w[1])] = ud(w[2])
+            out["T"][unhex(w[1])] = ud(w[2])
+        elif w[0] == "U":
+            out["U"][unhex(w[1])] = ud(w[2])
         elif w[0].startswith("bad"):
-            return None
-    return head, tot, gfw
+            out["bad"] = w[0]
+    return out
 
 
 def parse_impl_conv(block):
@@ -170,42 +193,40 @@ def cmp_tot(a, b, rel):
     return None
 
 
-def conv_check(ctx, db, desc, blk):
-    """→ ('ok'|'skip'|'bad', detail)"""
+def conv_check(ctx, db, desc, blk, wdb):
+    """→ ('ok'|'skip'|'bad', detail). Everything the model needs is read from the input text and the database text; the engine's
+    own reading (description, number, canonical units, `as`, stored gfw, master weight) is compared with the model's."""
     im = parse_impl_conv(blk)
     if im["S"] is None:
         return "skip", "no callback (run failed before the initial solution was punched): " + im["err"][-120:]
-    # cross-checks of the python-side tables against the engine
-    for c in desc["comps"]:
-        ic = im["comps"].get(c["name"])
-        if ic is None:
-            return "bad", f"component {c['name']} missing in the engine"
-        if ic["units"] != expected_units(desc, c):
-            return "bad", f"units of {c['name']}: engine {ic['units']!r}, table {expected_units(desc, c)!r}"
-        if ic["master"] is None or not close(ic["master"], c["master"], 1e-14):
-            return "bad", f"master gfw of {c['name']}: engine {ic['master']!r}, database reading {c['master']!r}"
-    if not close(im["S"]["gh"], db.elt["H"], 0) or not close(im["S"]["goh"], db.elt["H"] + db.elt["O"], 1e-15):
+    pass2 = None
+    if desc["calc"]:
+        if im["R"] is None:
+            return "skip", "no second pass"
+        pass2 = im["R"]
+    mo = parse_model_text(ctx.pmodel("units", model_text(wdb, desc, pass2)))
+    if mo["bad"] or mo["head"] is None:
+        return "bad", f"model rejected the input text ({mo['bad']})"
+    if set(mo["C"]) != set(im["comps"]):
+        return "bad", f"components: engine {sorted(im['comps'])} model {sorted(mo['C'])}"
+    for name, mc in mo["C"].items():
+        ic = im["comps"][name]
+        if ic["units"] != mc["units"]:
+            return "bad", f"units of {name}: engine {ic['units']!r}, model {mc['units']!r}"
+        if ic["as_f"] != mc["as_f"]:
+            return "bad", f"`as` of {name}: engine {ic['as_f']!r}, model {mc['as_f']!r}"
+        if not close(ic["conc"], mc["conc"], 1e-15):
+            return "bad", f"number of {name}: engine {ic['conc']!r}, model {mc['conc']!r}"
+        if mc["conc"] > 0 and not close(ic["gfw"], mc["gfw"], 1e-13):
+            return "bad", f"gfw stored for {name}: engine {ic['gfw']!r} model {mc['gfw']!r}"
+    if not close(im["S"]["gh"], wdb["elt"]["H"], 0) or not close(im["S"]["goh"], wdb["elt"]["H"] + wdb["elt"]["O"], 1e-15):
         return "bad", "gfw of H / OH"
-    m1 = parse_model_conv(ctx.pmodel("units", model_conv_text(db, desc, desc["density"], 0, 1.0)))
-    if m1 is None:
-        return "bad", "model rejected the case"
-    (err1, mw1), t1, g1 = m1
     if not desc["calc"]:
-        d = cmp_tot(im["T"], t1, REL_MODEL)
+        d = cmp_tot(im["T"], mo["T"], REL_MODEL)
         if d:
             return "bad", "first pass: " + d
-        for c in desc["comps"]:
-            if not close(im["comps"][c["name"]]["gfw"], g1[c["name"]], 1e-14):
-                if c["conc"] > 0:
-                    return "bad", f"gfw stored for {c['name']}: code {im['comps'][c['name']]['gfw']!r} model {g1[c['name']]!r}"
         return "ok", "first"
-    # density loop: the call is repeated with density_iterations > 0; re-invoked on the live engine state
-    if im["R"] is None:
-        return "skip", "no second pass"
-    m2 = parse_model_conv(ctx.pmodel("units", model_conv_text(db, desc, im["R"]["density"], im["R"]["iter"], im["R"]["kgw"], g1)))
-    if m2 is None:
-        return "bad", "model rejected the case (second pass)"
-    d = cmp_tot(im["U"], m2[1], REL_MODEL)
+    d = cmp_tot(im["U"], mo["U"], REL_MODEL)
     if d:
         return "bad", "density-iteration pass: " + d
     return "ok", "iter"
@@ -216,14 +237,11 @@ def restate(db, text, desc):
     same family (Mol/<den>, or eq/<den> where the component is in equivalents), the amount computed here from the written
     number, prefix and the weight the input names. By the property both inputs describe one system."""
     den = desc["den"]
-    lines_a, lines_b = [], []
-    for ln in text.splitlines():
-        if ln.startswith(("SELECTED_OUTPUT", "USER_PUNCH", " -reset", " 10 x =", " 20 PUNCH", "END")):
-            continue
-        lines_a.append(ln)
-    head = [ln for ln in lines_a if ln.split()[0] in ("SOLUTION", "pH", "density", "-water")]
+    lines_a = [ln for ln in text.splitlines()
+               if not ln.startswith(("SELECTED_OUTPUT", "USER_PUNCH", " -reset", " 10 x =", " 20 PUNCH", "END"))]
     base = "mol/" + {"kgw": "kgw", "l": "l", "kgs": "kgs"}[den]
-    lines_b = [head[0]] + [ln for ln in head[1:]] + [f" units {base}"]
+    lines_b = ["SOLUTION 1", f" pH {desc['ph']!r}", f" density {desc['density']!r}" + (" calculate" if desc["calc"] else ""),
+               f" -water {desc['water']!r}", f" units {base}"]
     elems = []
     for c in desc["comps"]:
         eff = expected_units(desc, c)
@@ -247,6 +265,86 @@ def restate(db, text, desc):
     a = pb + "\n".join(lines_a) + "\nEND\n"
     b = pb + "\n".join(lines_b) + "\nEND\n"
     return dict(kind="speciation", fam="units(restated)", k=1.0, a=a, b=b, last_only=False, obs=[(t, h) for t, h, _ in obs])
+
+
+# ---------------------------------------------------------------------------------------------- check_units: tables and spellings
+
+def source_tables(path, start_pat):
+    """units[] table and the replace(...) list of one copy of check_units, read from the source text"""
+    import re
+    src = open(path, errors="replace").read()
+    i = src.index(start_pat)
+    body = src[i:i + 6000]
+    m = re.search(r"units\[\]\s*=\s*\{(.*?)\};", body, re.S)
+    units = re.findall(r'"([^"]*)"', re.sub(r"/\*.*?\*/", "", m.group(1), flags=re.S)) if m else None
+    repl = re.findall(r'replace\(\s*"([^"]*)"\s*,\s*"([^"]*)"\s*,\s*tot_units\s*\)', body.split("Check if unit in list")[0])
+    return units, repl
+
+
+def tables_check(ctx):
+    """translator-style tie: the tables inside the Lean model are the tables in both C++ copies of check_units"""
+    out = ctx.pmodel("units", "tables\n")
+    m_units = [unhex(l.split()[1]) for l in out if l.startswith("UNIT")]
+    m_repl = [(unhex(l.split()[1]), unhex(l.split()[2])) for l in out if l.startswith("REPL")]
+    spell = [(unhex(l.split()[1]), unhex(l.split()[2])) for l in out if l.startswith("SPELL")]
+    bad = []
+    for path, pat in ((vlib.REPO / "src/phreeqcpp/read.cpp", "check_units(std::string &tot_units"),
+                      (vlib.REPO / "src/phreeqcpp/common/Parser.cxx", "CParser::check_units(std::string & tot_units")):
+        try:
+            u, r = source_tables(path, pat)
+        except ValueError:
+            u, r = None, None
+        if u != m_units:
+            bad.append(f"{path.name}: units[] table is {u}, the model has {m_units}")
+        if r != m_repl:
+            bad.append(f"{path.name}: replacement list is {r}, the model has {m_repl}")
+    return bad, spell, m_units
+
+
+def spelling_tokens(rng, spell, canon, n):
+    """tokens for check_units: every documented spelling, then seeded variants (case, blanks, glued words, truncations, junk)"""
+    toks = [(s, 0, 0, "") for s, _ in spell]
+    words = ["water", "solution", "H2O", "soln", "w", "s", "x", " as", "/day", "kg", "L", "liter", "litre", "kgw", "kgs", "ppm", "milli",
+             "micro", "mol", "moles", "grams", "equivalents", "equiv", "eq", "g", "m", "u", "/", " "]
+    for _ in range(n):
+        base = rng.choice(spell)[0] if rng.random() < 0.8 else rng.choice(canon)
+        r = rng.random()
+        t = base
+        if r < 0.2:
+            t = "".join(c.upper() if rng.random() < 0.5 else c.lower() for c in t)
+        elif r < 0.4:
+            j = rng.randrange(len(t) + 1)
+            t = t[:j] + rng.choice([" ", "  ", "\t"]) + t[j:]
+        elif r < 0.6:
+            t = t + rng.choice(words)
+        elif r < 0.7:
+            t = rng.choice(words) + t
+        elif r < 0.8:
+            j = rng.randrange(len(t))
+            t = t[:j] + t[j + 1:]
+        elif r < 0.9:
+            t = rng.choice(words) + rng.choice(["/", ""]) + rng.choice(words)
+        toks.append((t, rng.randrange(2), rng.randrange(2), rng.choice(canon + ["", "mol/kgw", "junk"])))
+    return toks
+
+
+def spelling_check(ctx, exe, dbpath, toks):
+    """both C++ copies of check_units vs the two variants of Txt.checkUnits on every token → (n, first disagreement or None)"""
+    ops = [f"cu {hx(t)} {a} {c} {hx(d)}" for t, a, c, d in toks]
+    blocks = parallel_ops(ctx, exe, dbpath, ops, chunk=400)
+    mtext = "".join(f"cu 0 {hx(t)} {a} {c} {hx(d)}\ncu 1 {hx(t)} {a} {c} {hx(d)}\n" for t, a, c, d in toks)
+    mo = ctx.pmodel("units", mtext)
+    for i, (tk, blk) in enumerate(zip(toks, blocks)):
+        w = blk[0].split()
+        if w[0] != "CU":
+            return i, f"harness: {blk}"
+        got = (w[1], w[2])
+        exp = (mo[2 * i].split()[1], mo[2 * i + 1].split()[1])
+        if got != exp:
+            show = lambda x: "ERROR" if x == "ERR" else repr(unhex(x))
+            return i, (f"check_units({tk[0]!r}, alk={tk[1]}, compat={tk[2]}, default={tk[3]!r}): read.cpp {show(got[0])} / Parser.cxx "
+                       f"{show(got[1])}, model {show(exp[0])} / {show(exp[1])}")
+    return len(toks), None
 
 
 # ---------------------------------------------------------------------------------------------- (i') mixing algebra
@@ -582,12 +680,13 @@ def run(ctx):
 
     # (i) convert_units correspondence
     n1 = 6000 if big else 400
-    cases = [G.conv_case(rng, db) for _ in range(n1)]
+    wdb = weights_db(dbpath)
+    cases = [(G.spread_case(rng, db) if i % 4 == 3 else G.conv_case(rng, db)) for i in range(n1)]
     blocks = parallel_ops(ctx, exe, dbpath, [f"conv {hx(t)} {hx(d['default'])}" for t, d in cases])
     cstat = {"ok_first": 0, "ok_iter": 0, "skip": 0}
     for (text, desc), blk in zip(cases, blocks):
         evals += 1
-        st, det = conv_check(ctx, db, desc, blk)
+        st, det = conv_check(ctx, db, desc, blk, wdb)
         hist["conv:" + desc["default"]] = hist.get("conv:" + desc["default"], 0) + 1
         for c in desc["comps"]:
             key = "comp:" + (c["own"] or "default") + (":as" if c["as_f"] else "") + (":gfw" if c["gfw"] else "")
@@ -615,6 +714,35 @@ def run(ctx):
             if len(corr_fail) >= 5:
                 break
     ctx.cov["convert_units"] = cstat
+
+    # (i-b) check_units: tables of the model = tables of both C++ copies; every documented spelling + seeded variants
+    tb, spell, canon = tables_check(ctx)
+    for b in tb:
+        ctx.log("check_units tables:", b)
+        corr_fail.append(("check_units: the tables of the model are not the tables of the source: " + b, {"kind": "tables", "detail": b}))
+    toks = spelling_tokens(rng, spell, canon, 12000 if big else 1500)
+    nsp, bad = spelling_check(ctx, exe, dbpath, toks)
+    evals += nsp
+    distinct += len(set(toks[:nsp]))
+    ctx.cov["check_units"] = {"documented_spellings": len(spell), "tokens": nsp, "tables_equal": not tb}
+    if bad:
+        ctx.log("check_units: code and model disagree:", bad)
+        # direct oracle: a documented spelling and the canonical name of the unit it denotes are two descriptions of one solution
+        tk = toks[nsp]
+        canon_of = dict(spell).get(tk[0])
+        if canon_of:
+            elem = "Alkalinity" if "eq" in canon_of else "Na"
+            fam = canon_of.split("/")[1]
+            obs = G.observables([elem])
+            mk = lambda u: (G.punch_block(obs) + f"SOLUTION 1\n pH 7.5\n units mol/{fam}\n density 1.01\n {elem} 0.00125 {u}\n Cl 0.001\nEND\n")
+            pair = dict(kind="speciation", fam="units(spelling)", k=1.0, a=mk(canon_of), b=mk(tk[0]), last_only=False, last_k=None,
+                        obs=[(t, h) for t, h, _ in obs])
+            st2, det2 = run_pairs(ctx, exe, dbpath, [pair])[0]
+            ctx.log("oracle: the documented spelling against the canonical name:", st2, det2)
+            if st2 in ("bad", "asym"):
+                ctx.violation(f"the documented unit spelling {tk[0]!r} and {canon_of!r} give different results: {det2} ({bad})",
+                              {"kind": "pair", "pair": pair, "detail": det2})
+        corr_fail.append(("check_units: real code and model disagree: " + bad, {"kind": "cu", "detail": bad, "token": list(toks[nsp])}))
 
     # (i') mixing algebra correspondence
     n2 = 2000 if big else 120
@@ -730,7 +858,7 @@ def replay(ctx, data):
     kind = data.get("kind")
     if kind == "conv":
         blk = parallel_ops(ctx, exe, dbpath, [f"conv {hx(data['input'])} {hx(data['desc']['default'])}"])[0]
-        st, det = conv_check(ctx, db, data["desc"], blk)
+        st, det = conv_check(ctx, db, data["desc"], blk, weights_db(dbpath))
         print("replay:", st, det)
         if st == "bad":
             ctx.violation("replayed convert_units case still disagrees: " + det, data)
@@ -740,6 +868,11 @@ def replay(ctx, data):
         print("replay:", st, det)
         if st == "bad":
             ctx.violation("replayed mixing case still disagrees: " + det, data)
+    elif kind == "cu":
+        n, bad = spelling_check(ctx, exe, dbpath, [tuple(data["token"])])
+        print("replay:", bad)
+        if bad:
+            ctx.violation("replayed check_units token still disagrees: " + bad, data)
     elif kind == "pair":
         p = data["pair"]
         p["obs"] = [tuple(x) for x in p["obs"]]
